@@ -437,6 +437,26 @@ func vfC13Gen(rt *rapid.T) *vfC13Case {
 		c.Max = 300
 	}
 	focus := vfC13Step{Name: rapid.SampledFrom(vfC13Names).Draw(rt, "fname"), Qtype: rapid.SampledFrom([]uint16{dns.TypeA, dns.TypeTXT, dns.TypeMX}).Draw(rt, "ftype")}
+	if rapid.IntRange(0, 3).Draw(rt, "resetopening") == 0 {
+		// fail, wait out the backoff, a useful answer, wait out the answer, fail again: the backoff starts over
+		s := focus
+		s.Kind, s.EDNS = "query", true
+		s.ECS = rapid.SampledFrom([]string{"", "203.0.113.0/24", "203.0.113.0/24", "198.51.100.0/24"}).Draw(rt, "oecs")
+		s.CD = rapid.IntRange(0, 3).Draw(rt, "ocd") == 0
+		s.Wire = rapid.Bool().Draw(rt, "wire")
+		s.Up = "fail"
+		c.Steps = append(c.Steps, s)
+		if rapid.Bool().Draw(rt, "twice") {
+			c.Steps = append(c.Steps, vfC13Step{Kind: "sleep", Sleep: time.Duration(c.Min) * time.Second}, s)
+		}
+		c.Steps = append(c.Steps, vfC13Step{Kind: "sleep", Sleep: time.Duration(2*c.Min+1) * time.Second})
+		s.Up = "ok"
+		c.Steps = append(c.Steps, s)
+		c.Steps = append(c.Steps, vfC13Step{Kind: "sleep", Sleep: 6 * time.Second})
+		s.Up = "fail"
+		s.Wire = rapid.Bool().Draw(rt, "wire")
+		c.Steps = append(c.Steps, s)
+	}
 	n := rapid.IntRange(3, 18).Draw(rt, "nsteps")
 	for i := 0; i < n; i++ {
 		k := rapid.IntRange(0, 19).Draw(rt, "kind")
